@@ -219,6 +219,25 @@ def run_case(case: Dict[str, Any]) -> Dict[str, Any]:
                 except ValueError:
                     if allow:
                         viol.append({"key": f"E|{e}|untagged_rejected_when_allowed", "msg": f"shape={shape}"})
+        # untagged parameters sharing an explicit group with tagged ones (both orders)
+        for order in ("tagged_first", "untagged_first", "sandwich"):
+            t1, t2 = _mk((3, 5), "weight", None), _mk((7, 2), "weight", 4)
+            u1 = _mk((4, 6), None, None)
+            ps = {"tagged_first": [t1, u1, t2], "untagged_first": [u1, t1, t2], "sandwich": [t1, t2, u1]}[order]
+            n += 1
+            try:
+                groups = _call(e, [{"params": ps, "lr": 0.25}], 0.5, True)
+            except Exception as ex:  # noqa
+                viol.append({"key": f"E|{e}|mixed_group_raises|{order}", "msg": str(ex)[:200]})
+                continue
+            for g, p in zip(groups, ps):
+                if p is u1:
+                    want = 0.25
+                else:
+                    want = 0.25 * math.sqrt(expected_sq(_rule_of(e), "weight", tuple(p.shape), p.mup_scaling_depth))
+                if not _lr_close(g["lr"], want, "float"):
+                    viol.append({"key": f"E|{e}|mixed_group_lr|{order}|{'untagged' if p is u1 else 'tagged'}",
+                                 "msg": f"shape={tuple(p.shape)}: lr={float(g['lr'])!r} expected {want!r}"})
         # a depth that is not an int / None is not a valid tag
         # 4-D weight is an error through every entry point
         n += 1
